@@ -4,9 +4,7 @@ import (
 	"errors"
 	"fmt"
 	"io"
-	"sort"
 	"strings"
-	"sync"
 	"sync/atomic"
 	"testing"
 	"testing/synctest"
@@ -180,60 +178,10 @@ func (c *CaseC18) Eval(ob *Obs) []Finding {
 			// goroutine is parked, blocked on a channel, asleep in fake time, or gone, so the set
 			// of possible next steps is well defined and the plan (c.Sched) picks one. Nothing is
 			// left to the Go scheduler or to select's random choice.
-			type parkedG struct {
-				site string
-				seq  int64
-				ch   chan struct{}
-			}
-			var mu sync.Mutex
-			var parked []*parkedG
-			var seq atomic.Int64
-			verifsim.SetYieldHook(func(site string) {
-				g := &parkedG{site: site, seq: seq.Add(1), ch: make(chan struct{})}
-				mu.Lock()
-				parked = append(parked, g)
-				mu.Unlock()
-				<-g.ch
-			})
-			defer verifsim.SetYieldHook(nil)
-			takeParked := func(pick int) *parkedG {
-				mu.Lock()
-				defer mu.Unlock()
-				if len(parked) == 0 {
-					return nil
-				}
-				sort.Slice(parked, func(i, j int) bool {
-					if parked[i].site != parked[j].site {
-						return parked[i].site < parked[j].site
-					}
-					return parked[i].seq < parked[j].seq
-				})
-				i := pick % len(parked)
-				g := parked[i]
-				parked = append(parked[:i], parked[i+1:]...)
-				return g
-			}
-			var step atomic.Int64
-			next := func() int {
-				i := int(step.Add(1) - 1)
-				if len(c.Sched) == 0 {
-					return 0
-				}
-				return c.Sched[i%len(c.Sched)]
-			}
-			// R8: which of several ready cases a select of the code under test takes is the schedule's choice too
-			verifsim.SetSelectHook(func(site string, n int) []int {
-				ord := make([]int, n)
-				for i := range ord {
-					ord[i] = i
-				}
-				for i := n - 1; i > 0; i-- {
-					j := next() % (i + 1)
-					ord[i], ord[j] = ord[j], ord[i]
-				}
-				return ord
-			})
-			defer verifsim.SetSelectHook(nil)
+			sch := newCoop(c.Sched)
+			sch.install()
+			defer sch.uninstall()
+			takeParked, next := sch.take, sch.next
 
 			p := parser.NewParser(parser.NewDefaultConfig())
 			var exited atomic.Bool
